@@ -125,8 +125,11 @@ theorem findTile_spec (l : List Entry) (hs : l.Pairwise (fun a b => a.id < b.id)
     by_cases hr : (l[k]'hk).run = 0
     · simp [hr]
     · have hne : ¬ ((l[k]'hk).id = id) := by omega
-      have hnl : ¬ (id < (l[k]'hk).id) := by omega
-      simp only [hr, if_false, hnl, hne, false_or]
+      have hws : wrappingSub id (l[k]'hk).id = id - (l[k]'hk).id := by
+        unfold wrappingSub
+        have : (l[k]'hk).id ≤ id := by omega
+        simp [this]
+      simp only [hr, if_false, hws, hne, false_or]
       split <;> rfl
 
 /-- no entry starts at or before `id`: `None` -/
